@@ -23,6 +23,8 @@ let () =
   | "c06" -> per_line M_c06.line
   | "c06v" -> per_line M_c06.vline
   | "c06g" -> per_line M_c06.gline
+  | "c06i" -> per_line M_c06.iline
+  | "c06ix" -> per_line M_c06.ixline
   | "c15" -> per_line M_c15.line
   | "c02" -> per_line M_c02.line
   | "cdir" -> per_line M_cdir.line
